@@ -339,6 +339,15 @@ func reuseDecode(r *sim.Rand) {
 		reuseExperiment("", p.name, mk, at.up, b1, b2)
 	case 1:
 		b1[0], b2[0] = at.cid, at.cid
+		if r.Intn(2) == 0 {
+			// the second command is another one: with a payload, without one
+			// (in this direction), or not defined at all
+			b2[0] = byte(r.Intn(12))
+			if r.Intn(2) == 0 {
+				b2 = b2[:1]
+			}
+			simrt.Count(cOtherCID)
+		}
 		reuseExperiment("", p.name, p.newCmd, at.up, b1, b2)
 	default:
 		// command streams: one command each, sized by the library itself
